@@ -447,7 +447,7 @@ def main(ctx):
     if not ok:
         # a broken theorem / tie must not take the model driver away from the search
         sh(["lake", "build", "model_c04"], cwd=LEAN, timeout=3000)
-    names = ctx.audit("GojaModel.C04.Props", expect_min=24)
+    names = ctx.audit("GojaModel.C04.Props", expect_min=25)
     if have_tie and ok:
         ctx.audit("GojaModel.C04.Tie", expect_min=1)
     if ctx.tier == "thorough" and ok:
